@@ -196,6 +196,8 @@ def render(case, idx, rng):
     elif shape == "tuple2":
         body = "pub struct %s(pub %s, pub u8);" % (name, STRING)
     elif shape == "enum":
+        if case.get("f2present"):
+            return None           # a second struct variant: rendered by the struct-variant path of variant 1 only
         vs = []
         vn = VARIANT_NAMES[:]
         rng.shuffle(vn)
